@@ -1,0 +1,6 @@
+//go:build !verif
+
+package kvstore
+
+// verifYield marks a scheduling point for the verification harness; it does nothing in normal builds.
+func verifYield(string) {}
